@@ -271,6 +271,9 @@ def emit(ast, tenv, cenv, name, want=None):
             raise AnchorError(f"{name}: cannot infer width of {ast!r}")
         return (f"(mb ({BINOPS[ast[1]]} {w}) {emit(ast[2], tenv, cenv, name, w)} "
                 f"{emit(ast[3], tenv, cenv, name, w)})")
+    if k == "un" and ast[1] == "-" and ast[2][0] == "num" and want is not None:
+        # C: -64 converted to an unsigned W-bit operand (two's complement constant)
+        return f"(Ok {((1 << want) - ast[2][1]) & ((1 << want) - 1)})"
     if k == "meth" and ast[2] in METHS:
         w = width_of(ast[1], tenv) or want
         if w is None:
@@ -645,6 +648,49 @@ def gen_formulas():
                + emit(parse_expr(m2.group(1), "clsl2"),
                       {"full_chunks": 64, "@round_down_to_power_of_2": 64,
                        "&round_down_to_power_of_2": "c_round_down_to_power_of_2"}, ccenv, "clsl2", 64) + ".\n")
+    # ---- C formulas used by Model/CHasher.v (property C06) -----------------
+    def cexpr(e):
+        return e.replace("self->chunk.", "chunk_").replace("self->", "")
+    body = fn_body(ih, r"INLINE unsigned int popcnt\s*\(uint64_t x\)", "c_popcnt")
+    m = find1(r"#if defined\(__GNUC__\) \|\| defined\(__clang__\)\s*return\s+(.*?);", body, "c_popcnt.gnu")
+    out.append("Definition c_popcnt (x : N) : res N :=\n  "
+               + emit(parse_expr(m.group(1), "cpc"), {"x": 64}, ccenv, "cpc", 64) + ".\n")
+    body = fn_body(c, r"size_t chunk_state_len\s*\(const blake3_chunk_state \*self\)", "c_chunk_state_len")
+    m = find1(r"return\s+(.*?);", body, "c_chunk_state_len.ret")
+    out.append("Definition c_chunk_state_len (blocks_compressed buf_len : N) : res N :=\n  "
+               + emit(parse_expr(cexpr(m.group(1)), "ccl"), {"blocks_compressed": 8, "buf_len": 8}, ccenv, "ccl", 64)
+               + ".\n")
+    body = fn_body(c, r"void output_root_bytes\s*\(", "c_output_root_bytes")
+    m1 = find1(r"uint64_t\s+output_block_counter\s*=\s*(.*?);", body, "c_orb_counter")
+    m2 = find1(r"size_t\s+offset_within_block\s*=\s*(.*?);", body, "c_orb_offset")
+    m3 = find1(r"const size_t\s+available_bytes\s*=\s*(.*?);", body, "c_orb_available")
+    m4 = find1(r"if\s*\((out_len / 64)\)\s*\{\s*blake3_xof_many\(", body, "c_orb_blocks")
+    m5 = find1(r"out\s*\+=\s*(out_len & -64);\s*out_len\s*-=\s*out_len & -64;", body, "c_orb_whole")
+    out.append("Definition c_orb_counter (seek : N) : res N :=\n  "
+               + emit(parse_expr(m1.group(1), "orb1"), {"seek": 64}, ccenv, "orb1", 64) + ".\n")
+    out.append("Definition c_orb_offset (seek : N) : res N :=\n  "
+               + emit(parse_expr(m2.group(1), "orb2"), {"seek": 64}, ccenv, "orb2", 64) + ".\n")
+    out.append("Definition c_orb_available (offset_within_block : N) : res N :=\n  "
+               + emit(parse_expr(m3.group(1), "orb3"), {"offset_within_block": 64}, ccenv, "orb3", 64) + ".\n")
+    out.append("Definition c_orb_blocks (out_len : N) : res N :=\n  "
+               + emit(parse_expr(m4.group(1), "orb4"), {"out_len": 64}, ccenv, "orb4", 64) + ".\n")
+    out.append("Definition c_orb_whole (out_len : N) : res N :=\n  "
+               + emit(parse_expr(m5.group(1), "orb5"), {"out_len": 64}, ccenv, "orb5", 64) + ".\n")
+    body = fn_body(c, r"void blake3_hasher_update_base\s*\(", "c_update_base")
+    m1 = find1(r"uint64_t\s+count_so_far\s*=\s*(.*?);", body, "c_count_so_far")
+    m2 = find1(r"while\s*\((\(\(\(uint64_t\)\(subtree_len - 1\)\) & count_so_far\) != 0)\)", body, "c_shrink_cond")
+    m3 = find1(r"uint64_t\s+subtree_chunks\s*=\s*(.*?);", body, "c_subtree_chunks")
+    m4 = find1(r"hasher_push_cv\(self,\s*&cv_pair\[BLAKE3_OUT_LEN\],\s*(.*?)\);", body, "c_right_cv_counter")
+    out.append("Definition c_count_so_far (chunk_chunk_counter : N) : res N :=\n  "
+               + emit(parse_expr(cexpr(m1.group(1)), "ub1"), {"chunk_chunk_counter": 64}, ccenv, "ub1", 64) + ".\n")
+    out.append("Definition c_shrink_cond (subtree_len count_so_far : N) : res bool :=\n  "
+               + emit_bool(parse_expr(m2.group(1), "ub2"), {"subtree_len": 64, "count_so_far": 64}, ccenv, "ub2")
+               + ".\n")
+    out.append("Definition c_subtree_chunks (subtree_len : N) : res N :=\n  "
+               + emit(parse_expr(m3.group(1), "ub3"), {"subtree_len": 64}, ccenv, "ub3", 64) + ".\n")
+    out.append("Definition c_right_cv_counter (chunk_chunk_counter subtree_chunks : N) : res N :=\n  "
+               + emit(parse_expr(cexpr(m4.group(1)), "ub4"), {"chunk_chunk_counter": 64, "subtree_chunks": 64}, ccenv,
+                      "ub4", 64) + ".\n")
     return "".join(out)
 
 
@@ -661,6 +707,86 @@ def gen_test_vectors():
             return coq_list(list(bytes.fromhex(s)))
         rows.append(f"({c['input_len']}, {hx(c['hash'])}, {hx(c['keyed_hash'])}, {hx(c['derive_key'])})")
     out.append(";\n   ".join(rows) + "].\n")
+    return "".join(out)
+
+
+def gen_dispatch():
+    """c/blake3_dispatch.c get_cpu_features (the only writer of the C library's one global, g_cpu_features),
+    linearised in textual order: the control flow of the x86 branch is nested `if`s only (anchored: no loop, goto,
+    switch or ?:), so textual order over-approximates every execution path.  Events: the load of the cache and the
+    early return, `features = 0`, each `features |= BIT`, each store to g_cpu_features (DStore when the stored
+    expression is exactly the local `features`, DStoreOther otherwise), `return features`."""
+    text = strip_comments(src("c/blake3_dispatch.c"))
+    body = fn_body(text, r"get_cpu_features\s*\(void\)\s*\{", "c_get_cpu_features")
+    # keep the IS_X86 branch
+    m = find1(r"#if defined\(IS_X86\)[^\n]*\n", body, "c_get_cpu_features.is_x86")
+    head = body[:m.start()]
+    depth, part, parts = 0, [], {"then": None, "else": None}
+    cur = "then"
+    for line in body[m.end():].split("\n"):
+        t = line.strip()
+        if re.match(r"#\s*if", t):
+            depth += 1
+        elif re.match(r"#\s*endif", t):
+            if depth == 0:
+                parts[cur] = "\n".join(part)
+                break
+            depth -= 1
+        elif re.match(r"#\s*else", t) and depth == 0:
+            parts[cur] = "\n".join(part)
+            cur, part = "else", []
+            continue
+        elif re.match(r"#\s*elif", t) and depth == 0:
+            raise AnchorError("c_get_cpu_features: #elif at the IS_X86 level")
+        part.append(line)
+    if parts["then"] is None or parts["else"] is None:
+        raise AnchorError("c_get_cpu_features: IS_X86 #if/#else/#endif not found")
+    x86, other = parts["then"], parts["else"]
+    for kw in ("for", "while", "goto", "switch", "do"):
+        if re.search(r"\b%s\b" % kw, x86):
+            raise AnchorError("c_get_cpu_features: control flow other than nested if (%s)" % kw)
+    if "?" in x86:
+        raise AnchorError("c_get_cpu_features: conditional expression")
+    find1(r"enum cpu_feature features = ATOMIC_LOAD\(g_cpu_features\);\s*if \(features != UNDEFINED\) \{\s*return features;\s*\} else \{",
+          head, "c_get_cpu_features.cached_path")
+    if re.search(r"g_cpu_features", other) or re.search(r"ATOMIC_STORE", other):
+        raise AnchorError("c_get_cpu_features: store in the non-x86 branch")
+    # enum values
+    enum = fn_body(text, r"enum cpu_feature\s*\{", "c_cpu_feature_enum")
+    bits = {}
+    for name, sh in re.findall(r"(\w+)\s*=\s*1\s*<<\s*(\d+)", enum):
+        bits[name] = 1 << int(sh)
+    events = []
+    tok = re.compile(r"features\s*\|=\s*(\w+)\s*;|features\s*=\s*0\s*;|ATOMIC_STORE\s*\(\s*g_cpu_features\s*,\s*([^;]*?)\)\s*;"
+                     r"|g_cpu_features\s*=[^=]([^;]*);|return\s+features\s*;|features\s*([-+&^]|<<|>>)?=[^=]")
+    for mm in tok.finditer(x86):
+        t = mm.group(0)
+        if t.startswith("features") and "|=" in t:
+            if mm.group(1) not in bits:
+                raise AnchorError("c_get_cpu_features: unknown feature bit %s" % mm.group(1))
+            events.append("DOr %d" % bits[mm.group(1)])
+        elif re.match(r"features\s*=\s*0", t):
+            events.append("DAssign0")
+        elif t.startswith("ATOMIC_STORE"):
+            events.append("DStore" if mm.group(2).strip() == "features" else "DStoreOther")
+        elif t.startswith("g_cpu_features"):
+            events.append("DStoreOther")
+        elif t.startswith("return"):
+            events.append("DRet")
+        else:
+            raise AnchorError("c_get_cpu_features: unrecognised update of `features`: %s" % t.strip())
+    # every other mention of the global in the file must be its definition or a read
+    outside = text.replace(body, "")
+    for mm in re.finditer(r"[^\n]*g_cpu_features[^\n]*", outside):
+        line = mm.group(0)
+        if re.search(r"ATOMIC_STORE|g_cpu_features\s*(=[^=]|\+\+|--|[-+|&^]=)", line) and "ATOMIC_INT g_cpu_features = UNDEFINED" not in line \
+                and not line.lstrip().startswith("#define"):
+            raise AnchorError("g_cpu_features written outside get_cpu_features: %s" % line.strip())
+    out = [HEADER]
+    out.append("From V Require Import Model.Dispatch.\n")
+    out.append("(* c/blake3_dispatch.c get_cpu_features, x86 branch, events in textual order *)\n")
+    out.append("Definition c_dispatch_prog : list dstmt :=\n  [" + "; ".join(events) + "].\n")
+    out.append("Definition c_feature_UNDEFINED : N := %d.\n" % bits.get("UNDEFINED", 0))
     return "".join(out)
 
 
@@ -775,7 +901,8 @@ def gen_globals(c_objects, rs_archives, rs_crate="blake3", hook_prefixes=()):
             "sha256": hashlib.sha256(text.encode()).hexdigest()}
 
 
-GENERATORS = [("GenConsts.v", gen_consts), ("GenFormulas.v", gen_formulas), ("GenTestVectors.v", gen_test_vectors)]
+GENERATORS = [("GenConsts.v", gen_consts), ("GenFormulas.v", gen_formulas), ("GenTestVectors.v", gen_test_vectors),
+              ("GenDispatch.v", gen_dispatch)]
 
 
 def main():
